@@ -654,6 +654,18 @@ def run_check(mod, tier, seed, replay=None):
         broken.append("correspondence model/implementation: %d of %d cases differ" % (len(mism), len(lines)))
     if kbad:
         broken.append("kernel cross-check: " + kbad[0])
+    # a module may tie part of its model to the source text as well (a translator regenerates Gallina from baize's Python on
+    # every run and coqc re-checks a proof that the generated function equals the hand-written model function):
+    # extra_obligations(tier) -> [(name, ok, detail)]
+    extra_obl = []
+    if not replay and hasattr(mod, "extra_obligations"):
+        try:
+            extra_obl = [list(x) for x in mod.extra_obligations(tier)]
+        except Exception as e:  # noqa
+            extra_obl = [["extra_obligations", False, "raised %s: %s" % (type(e).__name__, str(e)[:300])]]
+        for name, ok, detail in extra_obl:
+            if not ok:
+                broken.append("source-translation obligation %s: %s" % (name, str(detail)[:600]))
 
     # ---- extended search when something is broken but no failing input yet
     searched = 0
@@ -738,6 +750,7 @@ def run_check(mod, tier, seed, replay=None):
                 "oracle_failures": len(failures), "known_finding_hits": sorted(known_hits),
                 "exhaustive": bool(getattr(mod, "EXHAUSTIVE", {}).get(tier, False)),
                 "partial": getattr(mod, "PARTIAL", ""),
+                "source_translation_obligations": [{"name": n, "ok": bool(o), "detail": str(d)[:300]} for n, o, d in extra_obl],
                 "anchored_sources_changed_cases_escalated": escalated,
             },
             "assumptions": list(getattr(mod, "ASSUMPTIONS", [])),
